@@ -2,6 +2,8 @@ package props
 
 import (
 	"fmt"
+	"os"
+	"sort"
 	"strings"
 	"sync"
 	"time"
@@ -20,7 +22,7 @@ type c05Prefix struct {
 }
 
 func c05(r *ev.Reporter, _ []string) {
-	r.Rule = "prefix set = every canonical state of the deviation-bounded exploration (deliveries out of order, loss, duplicates, timer expiries, twin equivocation) x every crash set of size <= f; from each, the deterministic synchronous suffix (quorum-only FIFO delivery, timers at quiescence, leaders from the quorum) must let every quorum member commit a new block before view heal+3*ChainLength+2; plus the fault-free 12-view lock-step run for fixed/round-robin leaders; distinct = (prefix state, crash set)"
+	r.Rule = "prefix set = every canonical state of the deviation-bounded exploration (deliveries out of order, loss, duplicates, timer expiries, twin equivocation) x every crash set of size <= f; from each, the deterministic synchronous suffix (quorum-only FIFO delivery, timers at quiescence, leaders from the quorum) must let every quorum member commit a new block before view heal+3*ChainLength+2; plus the fault-free 12-view lock-step run for fixed/round-robin leaders; plus the isolation family (one replica cut off for k views under every cyclic leader pattern of period 4, then re-joined under three leader rotations: all commit within 3k+3*ChainLength+2 views); distinct = (prefix state, crash set)"
 	type run struct {
 		cfg     cluster.Config
 		bound   int
@@ -125,9 +127,113 @@ func c05(r *ev.Reporter, _ []string) {
 			}
 		}
 	}
+	iso := c05Isolation(r)
+	fmt.Println(iso[0])
+	bounds = append(bounds, iso...)
 	r.Extra["runs"] = bounds
 	r.Traces = r.Transitions
 	r.Sample("chainedhotstuff n=4: prefix [D ProposeMsg 1>0 | X VoteMsg 0>2 | T 3], crashed=2 -> suffix led by {1,3,4} commits before view heal+11")
 	r.Assume("the view bound is heal+3*ChainLength+2 where heal = highest view in the prefix state + 2 (so that the leader schedule of the prefix is unchanged)")
 	r.Explanation = "Prefixes are real executions found by the explorer; each suffix is one deterministic real execution."
+}
+
+// c05Isolation: the isolation family. One replica is cut off for k views whose leaders follow a
+// cyclic pattern (every pattern of period <= 4 over the replicas, the isolated one included: its
+// views time out), then all four replicas are connected again and led round-robin. Every replica
+// has to commit a new block within the view bound after the heal.
+func c05Isolation(r *ev.Reporter) []string {
+	type job struct {
+		rs       string
+		pattern  []hotstuff.ID
+		rotation []hotstuff.ID
+		k        int
+	}
+	// leaders after the heal: all replicas in turn, or a quorum that contains the re-joined replica
+	rotations := [][]hotstuff.ID{{1, 2, 3, 4}, {1, 2, 3}, {2, 3, 4}}
+	ks := []int{4, 8, 12}
+	ids := []hotstuff.ID{1, 2, 3}
+	if !r.Quick() {
+		ks = []int{2, 4, 6, 8, 10, 12, 16, 20}
+		ids = []hotstuff.ID{1, 2, 3, 4}
+	}
+	var jobs []job
+	for _, rs := range []string{"chainedhotstuff", "simplehotstuff"} {
+		var rec func(p []hotstuff.ID)
+		rec = func(p []hotstuff.ID) {
+			if len(p) == 4 {
+				for _, k := range ks {
+					for _, rot := range rotations {
+						jobs = append(jobs, job{rs, append([]hotstuff.ID(nil), p...), rot, k})
+					}
+				}
+				return
+			}
+			for _, id := range ids {
+				rec(append(p, id))
+			}
+		}
+		rec(nil)
+	}
+	hist := map[int]int{}
+	var mu sync.Mutex
+	par.Each(len(jobs), func(i int) {
+		j := jobs[i]
+		const isolated = 3
+		// View bound after the heal: the re-joined replica is k views behind, moves one view per
+		// certificate it receives (C07) and is a failing leader of every fourth view until it has
+		// caught up, so the bound is linear in k: 3*ChainLength+2 (as in the suffix runs) plus 3 views
+		// per view of lag (measured on the unchanged tree: at most 2.5).
+		cl := 3
+		bound := 3*j.k + 3*cl + 2
+		res := cluster.IsolationRun(cluster.Config{N: 4, Rules: j.rs, Cache: 100}, isolated, j.pattern, j.rotation, j.k, bound+1)
+		if res.Broken != "" {
+			ev.Broken("C05 isolation run: %s", res.Broken)
+		}
+		mu.Lock()
+		defer mu.Unlock()
+		r.Count(1, int64(res.Events), 1, 1)
+		worst := 0
+		var late []string
+		for id := hotstuff.ID(1); id <= 4; id++ {
+			cv := res.CommitView[id]
+			d := cv - int(res.HealView)
+			if cv < 0 {
+				d = 999
+			}
+			if d > worst {
+				worst = d
+			}
+			if d > bound {
+				late = append(late, fmt.Sprint(id))
+			}
+		}
+		hist[worst]++
+		if len(late) > 0 {
+			tail := res.Trace
+			if len(tail) > 60 {
+				tail = tail[len(tail)-60:]
+			}
+			r.Violation(fmt.Sprintf("C05 %s: no new commit within the view bound after an isolated replica re-joined", j.rs),
+				fmt.Sprintf("%s n=4, replica %d isolated for views 1..%d led cyclically by %v, then all connected and led by %v in turn, lock-step schedule: replicas [%s] have not committed a new block %d views after the heal (highest view %d)", j.rs, isolated, j.k, j.pattern, j.rotation, strings.Join(late, " "), bound, res.MaxView),
+				map[string]any{"ruleset": j.rs, "isolated": isolated, "pattern": fmt.Sprint(j.pattern), "rotation": fmt.Sprint(j.rotation), "k": j.k, "last_events": tail})
+		}
+		if os.Getenv("VERIF_C05_TRACE") == fmt.Sprintf("%s %v %d", j.rs, j.pattern, j.k) {
+			for i, l := range res.Trace {
+				fmt.Printf("trace %4d %s\n", i, l)
+			}
+		}
+		if os.Getenv("VERIF_C05_DEBUG") != "" {
+			fmt.Printf("isolation %s pattern=%v rotation=%v k=%d: commit views %v heal=%d max=%d\n", j.rs, j.pattern, j.rotation, j.k, res.CommitView, res.HealView, res.MaxView)
+		}
+	})
+	var keys []int
+	for k := range hist {
+		keys = append(keys, k)
+	}
+	sort.Ints(keys)
+	var sb strings.Builder
+	for _, k := range keys {
+		fmt.Fprintf(&sb, "%d:%d ", k, hist[k])
+	}
+	return []string{fmt.Sprintf("isolation family (replica 3 cut off for k in %v views, every leader pattern of period 4 over %v, then led by each of %v in turn): %d runs; views after the heal until the last replica committed a new block -> number of runs: %s(999 = not within 3k+11 views)", ks, ids, rotations, len(jobs), sb.String())}
 }
